@@ -398,7 +398,7 @@ void Mtz::read_raw_data(AnyStream& stream, bool do_read) {
     return;
   }
   data.resize(n);
-  if (!stream.read(data.data(), 4 * n))
+  if (n != 0 && !stream.read(data.data(), 4 * n))
     fail("Error when reading MTZ data");
   if (!same_byte_order)
     for (float& f : data)
